@@ -283,6 +283,11 @@ def check_C07(chk, tier, seed):
                 continue
             cases.append(f"SD g 1 {rs([data[:cut], 'i', data[cut:]])}")
             meta.append((L, "interrupted-read", len(cont)))
+    # every fifth case once more on a runtime that has no time driver (`Builder::new_current_thread().enable_io()`): reading a frame
+    # needs no clock
+    extra = [(c.replace("SD g", "SDN g", 1), m) for c, m in list(zip(cases, meta))[::5] if " t:" not in c]
+    cases += [c for c, _ in extra]
+    meta += [(m[0], m[1] + "@no-time-driver" if m[1] != "interrupted-read" else m[1], m[2]) for _, m in extra]
     cases += [c for c in regress_cases("C07")]
     meta += [(None, "regress", 0)] * (len(cases) - len(meta))
     impl = core.run_sharded([eng.harness, "codec"], eng.prelude, cases, timeout=900)
